@@ -1,12 +1,9 @@
 (* C05 - each host's output is relayed complete, in order, exactly once.
    Statements only; proofs in Dsh/OutputFacts.v. *)
-From PV Require Import Cbuf.CbufDefs Dsh.Output Dsh.OutputSpec Dsh.OutputFacts.
+(* with_labels: Dsh/OutputDomain.v *)
+From PV Require Import Cbuf.CbufDefs Dsh.Output Dsh.OutputSpec Dsh.OutputDomain Dsh.OutputFacts.
 From PV Require Import Props.Properties_C06.
 Local Open Scope N_scope.
-
-(* the calls are texts, some of them carrying the host's label *)
-Definition with_labels (x : octx) (texts : list (bool * bytes)) : list bytes :=
-  map (fun bt => if fst bt then emit x (snd bt) else snd bt) texts.
 
 (* for every stream in the domain and EVERY fragmentation: the texts written for the host,
    labels aside, concatenate to exactly the bytes the remote wrote - nothing lost, nothing
